@@ -502,7 +502,7 @@ void Optimizer::find_subroutines()
 
 	for(auto && dst : track_map)
 	{
-		if(dst.first < src_track || dst.first == sub_id)
+		if(dst.first < src_track || dst.first == (uint16_t)sub_id)
 			continue;
 		else if(dst.first == src_track)
 		{
